@@ -16,10 +16,10 @@ VARIABLE l
 Judge(o) ==
   \A j \in 1..Len(o.ev) :
      LET bad == OffendedAt(o.cfg, o.ev, j) \cup TimedOffendedAt(o.cfg, o.ev, j)
-     IN bad = {} \/ PrintT(<<"BEH", ToJson([id |-> o.id, at |-> j, clauses |-> bad])>>)
+     IN IF bad = {} THEN TRUE ELSE PrintT(<<"BEH", ToJson([id |-> o.id, at |-> j, clauses |-> bad])>>)
 
 MonInit == l = 1
-MonNext == l <= Len(Log) /\ Judge(Log[l]) /\ l' = l + 1
+MonNext == l <= Len(Log) /\ Judge(Log[l]) = TRUE /\ l' = l + 1
 MonSpec == MonInit /\ [][MonNext]_l
 AllJudged == TLCGet("stats").diameter - 1 = Len(Log)
 =============================================================================
